@@ -1,13 +1,13 @@
 SPECIFICATION Spec
 CONSTANTS
   Deviations <- AllDevs
-  MaxNodes = 4
+  MaxNodes = 2
   Worlds <- QuickWorlds
-  Rich = TRUE
+  Rich = FALSE
   NumIter = 2
   EarlyStop = TRUE
-  Sim = TRUE
-  Fine = TRUE
+  Sim = FALSE
+  Fine = FALSE
   Mutant = "none"
 INVARIANT PropertyHolds
 INVARIANT Emit
